@@ -19,7 +19,8 @@ LEAVES = [("int", -1), ("int", 0), ("int", 1), ("int", 2), ("none", 0), ("true",
 # closure shadows the globals (Python's rule; the re-evaluator must look names up in the same order).
 C_VALUE = ("int", 5, [])
 G_VALUE = ("list", 0, [7])
-UNARY = ["not", "neg", "ident", "len", "first", "attr", "isnone"]
+UNARY = ["not", "neg", "ident", "len", "first", "attr", "isnone", "all_gt", "all_pos"]
+NONE_ELEM = -9   # a list element that is None
 BINARY = ["add", "floordiv", "and", "or", "lt", "eq", "in"]
 TERNARY = ["ifexp", "lt2", "and3", "or3"]
 ARITY = {k: 0 for k in ("int", "none", "true", "false", "name")}
@@ -28,7 +29,8 @@ ARITY.update({k: 2 for k in BINARY})
 ARITY.update({k: 3 for k in TERNARY})
 
 X_VALUES = [("int", -1, []), ("int", 0, []), ("int", 2, []), ("none", 0, []), ("list", 0, []), ("list", 0, [1]),
-            ("list", 0, [0, 2]), ("obj", 3, []), ("bool", 1, [])]
+            ("list", 0, [0, 2]), ("obj", 3, []), ("bool", 1, []), ("list", 0, [3, NONE_ELEM, 20, -1]),
+            ("list", 0, [2, 1, 30])]
 Y_VALUES = [("int", 0, []), ("int", 3, []), ("none", 0, []), ("list", 0, [2]), ("obj", 0, [])]
 
 
@@ -63,6 +65,16 @@ def trees(depth: int) -> Iterator[list]:
                     yield [{"k": k, "a": 0}] + a + b + c
 
 
+class AllFail:
+    """Expected rendering of a failed all(<generator>): the first falsifying element."""
+
+    def __init__(self, e: Any) -> None:
+        self.e = e
+
+    def __repr__(self) -> str:
+        return "False, e.g., with\n  e = {!r}".format(self.e)
+
+
 class Obj:
     def __init__(self, n: int) -> None:
         self.v = n
@@ -80,7 +92,9 @@ def py_value(v: dict, objs: Dict[int, Obj]) -> Any:
     if t == "none":
         return None
     if t == "list":
-        return list(v["s"])
+        return [None if e == NONE_ELEM else e for e in v["s"]]
+    if t == "allfail":
+        return AllFail(None if v["n"] == NONE_ELEM else v["n"])
     if t == "obj":
         return objs.setdefault(v["n"], Obj(v["n"]))
     raise ValueError(t)
@@ -94,7 +108,7 @@ def tla_value_of(x: Any) -> list:
     if x is None:
         return ["none", 0, []]
     if isinstance(x, list):
-        return ["list", 0, list(x)]
+        return ["list", 0, [NONE_ELEM if e is None else e for e in x]]
     if isinstance(x, Obj):
         return ["obj", x.v, []]
     return ["?", 0, []]
@@ -111,7 +125,7 @@ def parse(expr: list, p: int = 0) -> Tuple[dict, int]:
     return node, q
 
 
-ATOMIC = ("int", "none", "true", "false", "name", "ident", "len", "first", "attr")
+ATOMIC = ("int", "none", "true", "false", "name", "ident", "len", "first", "attr", "all_gt", "all_pos")
 
 
 def render(node: dict, rec: bool = False) -> str:
@@ -147,6 +161,10 @@ def render(node: dict, rec: bool = False) -> str:
         s = "ident(" + sub(0, False) + ")"
     elif k == "len":
         s = "len(" + sub(0, False) + ")"
+    elif k == "all_gt":
+        s = "all(e > 0 for e in " + sub(0) + ")"
+    elif k == "all_pos":
+        s = "all(10 // e > 0 for e in " + sub(0) + " if e is not None if e > 0)"
     elif k == "first":
         s = sub(0) + "[0]"
     elif k == "attr":
@@ -176,17 +194,18 @@ def texts(node: dict, out: Dict[int, str]) -> None:
         texts(kid, out)
 
 
-def expr_cfg(sw_eager: bool, sw_or: bool, invariants: List[str]) -> str:
+def expr_cfg(sw_eager: bool, sw_or: bool, invariants: List[str], sw_allfail: bool = False) -> str:
     lines = ["SPECIFICATION ESpec", "CONSTANTS", "  CaseSpace <- MCCaseSpace",
              "  SwEagerBool = {}".format("TRUE" if sw_eager else "FALSE"),
-             "  SwOrSeedTrue = {}".format("TRUE" if sw_or else "FALSE")]
+             "  SwOrSeedTrue = {}".format("TRUE" if sw_or else "FALSE"),
+             "  SwAllFailLeaks = {}".format("TRUE" if sw_allfail else "FALSE")]
     for inv in invariants:
         lines.append("INVARIANT " + inv)
     lines.append("CHECK_DEADLOCK FALSE")
     return "\n".join(lines) + "\n"
 
 
-EXPR_INVARIANTS = ["RecomputeWithinEvaluated", "ViolationSurfaces", "ShownSound", "ShownComplete"]
+EXPR_INVARIANTS = ["RecomputeWithinEvaluated", "ViolationSurfaces", "ShownSound", "ShownComplete", "AllCounterexample"]
 
 
 def model_check_expr(cases: List[dict], sw_eager: bool = False, sw_or: bool = False,
@@ -301,11 +320,16 @@ def parse_message(msg: str, cond_text: str) -> Optional[Dict[str, str]]:
     else:
         return None
     out = {}
+    last = None
     for it in items:
+        if it.startswith("  ") and last is not None:
+            out[last] += "\n" + it
+            continue
         if " was " not in it:
             return None
         k, v = it.split(" was ", 1)
         out[k] = v
+        last = k
     return out
 
 
@@ -406,6 +430,20 @@ def check_cases(res: CheckResult, prop_clauses: Dict[str, set], cases: List[dict
                         break
                 else:
                     extra = [k_ for k_ in lines if k_ not in expect]
+                    # The specification is conservative where a name is bound to None (the re-evaluator's "unknown"
+                    # marker): a line it does not predict is still sound if CPython evaluated that very
+                    # sub-expression to that very value.
+                    cpy_vals = {p_: v_ for p_, v_ in mod.rec_log if not (isinstance(v_, str) and v_ == "enter")}
+                    sound_extra = []
+                    for k_ in extra:
+                        for p_, t_ in tx.items():
+                            if t_ == k_ and p_ in cpy_vals:
+                                shown_v = lines[k_]
+                                if shown_v == repr(cpy_vals[p_]) or (
+                                        cpy_vals[p_] is False and shown_v.startswith("False, e.g., with")):
+                                    sound_extra.append(k_)
+                                    break
+                    extra = [k_ for k_ in extra if k_ not in sound_extra]
                     if extra:
                         _viol(res, prop_clauses, "msg.value_unsound",
                               "`{}` x={!r} y={!r}: the message lists `{}` which Python did not evaluate (or is not "
@@ -483,8 +521,20 @@ def fam_nested(rng: random.Random, budget: int) -> List[list]:
             for l in leaves:
                 out.append([_nd(k)] + e + l)
                 out.append([_nd(k)] + l + e)
+    # the value of a quantifier used by an enclosing expression
+    quants = [[_nd(q)] + l for q in ("all_gt", "all_pos") for l in leaves if l[0]["k"] == "name"]
+    for qe in quants:
+        for u in ("not", "ident", "neg", "isnone", "len"):
+            out.append([_nd(u)] + qe)
+        for k in ("eq", "add", "and", "or", "lt", "in"):
+            for l in leaves + [[_nd("false")], [_nd("true")]]:
+                out.append([_nd(k)] + qe + l)
+                out.append([_nd(k)] + l + qe)
+        out.append([_nd("ifexp")] + qe + [_nd("int", 1)] + [_nd("int", 0)])
+        out.append([_nd("ident")] + [_nd("eq")] + qe + [_nd("false")])
     if len(out) > budget:
-        out = rng.sample(out, budget)
+        keep = out[-len(quants) * 90:]
+        out = rng.sample(out[:-len(quants) * 90], max(0, budget - len(keep))) + keep
     return out
 
 
